@@ -17,6 +17,9 @@ class PreprocessorHexagon:
 
     def __init__(self, shortcode_path: Path):
         self.shortcode_path: Path = shortcode_path
+        # Loaded behaviors belong to this preprocessor instance.
+        self.behaviors = dict()
+        self.patched_macros = []
 
     def run_preprocess_steps(self):
         self.preprocess_macros()
